@@ -156,7 +156,7 @@ func buildC04(cfg *mon.Config) []*mon.Sub {
 				rep := func(s string) string {
 					return strings.Repeat(s, n/len([]rune(s))+1)[:0] + string([]rune(strings.Repeat(s, n/len([]rune(s))+1))[:n])
 				}
-				toks := []string{rep("w"), rep("wé"), rep("7"), rep("3") + "." + rep("4"), "'" + rep("q ") + "'", "\"" + rep("x,") + "\"", rep(" \t"), "/*" + rep("c*") + "*/", "#" + rep("h"), rep("ш"), rep("ab-")}
+				toks := []string{rep("w"), rep("wé"), rep("7"), rep("3") + "." + rep("4"), "'" + rep("q ") + "'", "\"" + rep("x,") + "\"", rep(" \t"), "/*" + rep("c*") + "*/", "#" + rep("h"), rep("ш"), rep("ab-"), rep("€"), "x" + rep("€"), "xy" + rep("€"), rep("😀"), "x" + rep("ш")}
 				for _, k := range allTokenizers {
 					for _, t := range toks {
 						emit(k + "\x00" + t)
